@@ -114,8 +114,11 @@ func (c *Authority) VerifyPartialCert(cert hotstuff.PartialCert) error {
 
 // VerifyQuorumCert verifies a quorum certificate.
 func (c *Authority) VerifyQuorumCert(qc hotstuff.QuorumCert) error {
-	// genesis QC is always valid.
+	// the genesis QC (view 0) is always valid.
 	if qc.BlockHash() == hotstuff.GetGenesis().Hash() {
+		if qc.View() != hotstuff.GetGenesis().View() {
+			return fmt.Errorf("quorum certificate for the genesis block claims view %d", qc.View())
+		}
 		return nil
 	}
 
